@@ -20,7 +20,7 @@ From TLV Require Import Base.Shape Base.PyList Base.Tensor Base.BigSum Model.Bas
   Proofs.TenalgProofs Proofs.TenalgProofsKR Proofs.TenalgProofsEinsum Proofs.TenalgProofsInner
   Proofs.TenalgProofsOuter Proofs.TenalgProofsSample Proofs.TenalgProofsSort Proofs.TenalgProofsEinsumVec Proofs.TenalgProofsMulti Proofs.TenalgProofsEinsumInner
   Proofs.TenalgProofsEinsumMttkrp Proofs.TenalgProofsEinsumKR Proofs.TenalgProofsEinsumOuter Proofs.TenalgProofsMultiGen Proofs.TenalgProofsMultiGen2 Proofs.TenalgProofsMemory
-  Proofs.TenalgProofsTdotE Proofs.TenalgProofsTdotC Proofs.TenalgProofsEinsumMulti Proofs.TenalgProofsValidate Proofs.TenalgProofsTdotInner Proofs.TenalgProofsKRBcast Proofs.TenalgProofsNegMode.
+  Proofs.TenalgProofsTdotE Proofs.TenalgProofsTdotC Proofs.TenalgProofsEinsumMulti Proofs.TenalgProofsValidate Proofs.TenalgProofsTdotInner Proofs.TenalgProofsKRBcast Proofs.TenalgProofsNegMode Proofs.TenalgProofsNegMulti.
 Import ListNotations.
 
 Definition ring_of {F} (Op : rops F) := ring_theory (r0 Op) (r1 Op) (radd Op) (rmul Op) (rsub Op) (ropp Op) (@eq F).
@@ -121,6 +121,27 @@ Theorem C02_mode_dot_vector_any_mode_backends_agree : forall (F : Type) (Op : ro
   mode_dot_z Op T v z tr = mode_dot_e_z Op T v z tr.
 Proof. exact @mode_dot_z_backends_agree_vector. Qed.
 Print Assumptions C02_mode_dot_vector_any_mode_backends_agree.
+
+(* multi_mode_dot with the modes as Python ints, both backends AS THEY ARE (multi_mode_dot_z / multi_mode_dot_e_z: sort by the raw
+   mode numbers, then mode - decrement resolved from the end): REFUTED - with v0 on mode 0 and v2 on mode -1 of a (2,2,2) tensor
+   both backends return a wrong vector without an error (known finding multi_mode_dot_negative_modes, fix candidate
+   build/fix_candidates/C02_negative_modes.diff); what does hold (PARTIAL, restricted to a single operand): every mode -N <= z < N
+   is right.  For non-negative modes the theorems C02_multi_mode_dot_core / _einsum above apply. *)
+Theorem C02_multi_mode_dot_negative_modes_refuted :
+  exists (T v0 v2 R Rc Re : tensor Z),
+    wf T /\ shape T = [2; 2; 2] /\ shape v0 = [2] /\ shape v2 = [2] /\
+    multi_mode_dot ZR T [v0; v2] (Some [0; 2]) None false = Ok R /\
+    multi_mode_dot_e ZR T [v0; v2] (Some [0; 2]) None false = Ok R /\
+    multi_mode_dot_z ZR T [v0; v2] [0; -1]%Z None false = Ok Rc /\
+    multi_mode_dot_e_z ZR T [v0; v2] [0; -1]%Z None false = Ok Re /\
+    Rc <> R /\ Re <> R.
+Proof. exact multi_mode_dot_negative_modes_refuted. Qed.
+Print Assumptions C02_multi_mode_dot_negative_modes_refuted.
+
+Theorem C02_multi_mode_dot_any_mode_single_operand_partial : forall (F : Type) (Op : rops F) (T M : tensor F) (z : Z) (tr : bool),
+  multi_mode_dot_z Op T [M] [z] None tr = mode_dot_z Op T (if tr then conj_t Op (transpose_rev Op M) else M) z false.
+Proof. exact @multi_mode_dot_z_single. Qed.
+Print Assumptions C02_multi_mode_dot_any_mode_single_operand_partial.
 
 (* KR[(i_1..i_n), r] = prod_k A_k[i_k, r] * w_r * mask[(i_1..i_n)], any number of matrices (also a single one), any skip;
    w_ok w R = the weights (if given) have exactly R entries, mask_ok mask n = the mask (if given) has exactly n entries (any
